@@ -155,6 +155,16 @@ def run(ctx):
             b2 = hexp(s2.serialize())
         except Exception as e:
             b2 = 'raise:' + type(e).__name__
+        # the other entry points read the same script: Script.parse on bytes and on hexadecimal text, parse_hex
+        for name_, fn_ in (('parse(bytes)', lambda: Script.parse(b, strict=strict)), ('parse(hex)', lambda: Script.parse(b.hex(), strict=strict)),
+                           ('parse_hex', lambda: Script.parse_hex(b.hex(), strict=strict))):
+            try:
+                cx = _cmds_str(fn_().commands)
+            except Exception as e:
+                cx = 'raise:' + type(e).__name__
+            ctx.evals += 1
+            if cx != c2:
+                b2 += ' %s-reads-%s' % (name_, cx[:80])
         return '%s %s %s' % (hexp(b), c2, b2)
 
     def trig(extra, op, py, spec):
